@@ -888,6 +888,9 @@ func (b *Block) GetPointLabels(pts []dvid.Point3d) []uint64 {
 				index |= uint16(b.SBValues[bytepos+1])
 				index >>= uint(16 - bithead - bits)
 			}
+			if index >= numSBLabels {
+				continue // corrupt block: packed value is not an index into this sub-block's labels
+			}
 			label := b.Labels[b.SBIndices[indexPos+uint32(index)]]
 			results[pti.index] = label
 		}
@@ -1541,6 +1544,9 @@ func (b *Block) Value(pos dvid.Point3d) uint64 {
 		}
 	}
 	n := b.NumSBLabels[sbNum]
+	if n == 0 {
+		return 0 // sub-block without labels is background, as in MakeLabelVolume
+	}
 	bits := bitsFor(n)
 	if bits == 0 {
 		idx := b.SBIndices[idxPos]
@@ -1549,6 +1555,9 @@ func (b *Block) Value(pos dvid.Point3d) uint64 {
 	x, y, z := pos[0]%SubBlockSize, pos[1]%SubBlockSize, pos[2]%SubBlockSize
 	bitPos += uint32(z*SubBlockSize*SubBlockSize+y*SubBlockSize+x) * bits
 	val := getPackedValue(b.SBValues, bitPos, bits)
+	if val >= n {
+		return 0 // corrupt block: packed value is not an index into this sub-block's labels
+	}
 	index := b.SBIndices[idxPos+int(val)]
 	return b.Labels[index]
 }
